@@ -489,3 +489,43 @@ def _asm_vector(dim, nc=None):
 
 ASM_VECTOR = [_asm_vector(d) for d in (1, 2, 3)] + [_asm_vector(d, nc) for d in (1, 2, 3) for nc in (2, 3)]
 CONTRACTS = CONTRACTS + ASM_VECTOR
+
+
+def transpose_table_obligations():
+    """generic_assemble_core_vec_{1,2,3}d (symmetric assembly): the transpose table of direction k is computed from the sparsity pattern of
+    direction k (transp_k = get_transpose_idx_for_bidx(bidx_k)) and the kernel receives (bidx_0.., transp_0..) in direction order -- the
+    precondition "transp_k[mu] is the position of the reversed index pair of bidx_k[mu]" under which the vec kernels are verified.
+    Reaching-definition analysis on the lowered source of the drivers."""
+    import ast
+    from pyvc import frontend
+    from pyvc.symexec import Obligation
+    src = frontend.load(F)
+    obs = []
+    for d in (1, 2, 3):
+        name = 'generic_assemble_core_vec_%dd' % d
+        fn = src.find(name)
+        defs = {}
+        for n in ast.walk(fn):
+            if isinstance(n, ast.If) and isinstance(n.test, ast.Name) and n.test.id == 'symmetric':
+                for st in n.body:
+                    if isinstance(st, ast.Assign) and len(st.targets) == 1 and isinstance(st.targets[0], ast.Name):
+                        defs[st.targets[0].id] = ast.unparse(st.value)
+        want = {'transp%d' % k: 'get_transpose_idx_for_bidx(bidx%d)' % k for k in range(d)}
+        ok1 = all(defs.get(k) == v for k, v in want.items())
+        calls = [n for n in ast.walk(fn) if isinstance(n, ast.Call) and isinstance(n.func, ast.Name) and n.func.id == '_asm_core_vec_%dd_kernel' % d]
+        args = [ast.unparse(a) for a in calls[0].args] if len(calls) == 1 else []
+        seq = ['bidx%d' % k for k in range(d)] + ['transp%d' % k for k in range(d)]
+        ok2 = args[2:2 + 2 * d] == seq
+        o = Obligation('assemble_tools_cy:%s:transpose-tables' % name, 'rule', fn.lineno, [], None,
+                       'transp_k is the transpose table of bidx_k for every direction k and the kernel gets them in direction order', src=F)
+        import re as _re
+        # three-valued: a table computed from ANOTHER direction's pattern, or tables handed over in another order, is a refutation; any
+        # shape this analysis does not recognise is undecided (bounded tier)
+        crossed = any((m := _re.fullmatch(r'get_transpose_idx_for_bidx\(bidx(\d)\)', defs.get('transp%d' % k, ''))) and int(m.group(1)) != k for k in range(d))
+        misordered = sorted(args[2:2 + 2 * d]) == sorted(seq) and not ok2
+        status = 'proved' if ok1 and ok2 else ('refuted' if crossed or misordered else 'unknown')
+        o.status, o.backend, o.time = status, 'ast-dataflow (reaching definition)', 0.0
+        if not (ok1 and ok2):
+            o.goal = 'under `if symmetric:` %r (expected %r); kernel arguments %r (expected %r)' % (defs, want, args[2:2 + 2 * d], seq)
+        obs.append(o)
+    return obs, None
